@@ -23,6 +23,7 @@ func init() {
 			"R4": "refusal guard: seat-id stores dominated by active count ≥ 2; refusals only under active count < 2 or unsupported rule",
 			"R5": "scan-helper shape: offsets 1..MaxSeat-1, first match of exactly its predicate, unset otherwise",
 			"R6": "eligibility definition and active-count definition",
+			"R8": "waiting arc (dealer, bb) exclusive at both ends, also across the wrap (shared with C05.R5): the rotation re-evaluates non-active seats with it before choosing the next big blind",
 			"R7": "first positions: BB = chosen active seat; heads-up dealer = SB = the other active seat; otherwise SB = previous active seat of the new BB and dealer = previous active seat of the new SB; short deck dealer = chosen seat",
 		},
 		Assumptions: []string{"seat ids are 0..MaxSeat-1 (constructor)"},
@@ -290,6 +291,10 @@ func checkC04(c *Ctx) {
 
 	// ---------------- R6
 	checkEligibility(c, "R6")
+
+	// ---------------- R8 the waiting arc the rotation re-evaluates is open at both ends
+	// (an arc that includes the big-blind seat makes the player due for the big blind wait)
+	checkWaitingArc(c, "R8", smT)
 
 	// ---------------- rotation
 	rotW := p.Method(smT, "RotatePositions")
